@@ -209,3 +209,53 @@ pub fn expect(b: &Built, cmds: &CmdOut, words: &[String], cur: &str, wordbreaks:
     let first = by.into_iter().next().map(|(_, s)| s).unwrap_or_default();
     Expect::Candidates(first.into_iter().map(|c| strip_wordbreaks(cur, wordbreaks, &c)).collect())
 }
+
+/// does some complete word of the command line end inside a within-word automaton that is expected where
+/// the word stands (the region of the known finding "truncated word accepted")?
+pub fn truncated_region(b: &Built, cmds: &CmdOut, words: &[String]) -> bool {
+    // follow every reading, including the truncated ones, as the emitted script would
+    let mut states: BTreeSet<usize> = BTreeSet::from([b.dfa.start]);
+    for w in words {
+        let mut next = BTreeSet::new();
+        for q in &states {
+            for (sym, r) in &b.dfa.trans[*q] {
+                if let Sym::Word { canon, .. } = sym {
+                    if let Some(sub) = b.words.get(canon) {
+                        if word_truncated(sub, cmds, w) {
+                            return true;
+                        }
+                    }
+                }
+                let _ = r;
+            }
+            for (_, r) in readers(b, cmds, *q, w) {
+                next.insert(r);
+            }
+        }
+        states = next;
+        if states.is_empty() {
+            return false;
+        }
+    }
+    false
+}
+
+/// C01's stated restriction on grammars: at no point (of the main automaton or of a within-word automaton)
+/// is the same literal text expected with two different labels
+pub fn same_literal_two_labels(b: &Built) -> bool {
+    let check = |d: &Ldfa| -> bool {
+        for row in &d.trans {
+            let mut seen: BTreeMap<&str, usize> = BTreeMap::new();
+            for (sym, _) in row {
+                if let Sym::Lit { text, .. } = sym {
+                    *seen.entry(text.as_str()).or_default() += 1;
+                }
+            }
+            if seen.values().any(|n| *n > 1) {
+                return true;
+            }
+        }
+        false
+    };
+    check(&b.dfa) || b.words.values().any(check)
+}
